@@ -56,9 +56,14 @@ def next_token(text, prev=None):
     """
     while text.hasNext():
         for name, f in tokenizers:
+            position = text.position
             current_token = f(text, prev=prev)
             if current_token is not None:
                 return current_token
+            if text.position != position:
+                # characters were skipped without yielding a token: start over
+                # at the new position (which may be the end of the input)
+                break
 
 
 @to_buffer()
@@ -232,7 +237,7 @@ def tokenize_ignore(text, prev=None):
     >>> print(*tokenize(categorize('\x00hello')))
     hello
     """
-    while text.peek().category in (CC.Ignored, CC.Invalid):
+    while text.hasNext() and text.peek().category in (CC.Ignored, CC.Invalid):
         text.forward(1)
 
 
